@@ -59,7 +59,7 @@ def run(ctx):
     ctx.add_tlc("Conditional", res, K)
     if res.violated:
         raise common.MachineryError("Conditional.tla: " + tlc.describe(res))
-    tlc.check_coverage(res, ["Tick", "Modify", "Plain", "Cond"])
+    tlc.check_coverage(res, ["Tick", "Modify", "Restore", "Chmod", "Plain", "Cond"])
     g = graph.Graph.load(res.dot)
 
     import baize.staticfiles as SF
